@@ -5,6 +5,7 @@ From Coq Require Import Bool List String.
 From Demes Require Import Base.Num Base.Py Model.MDM.
 Import ListNotations.
 Local Open Scope string_scope.
+Local Open Scope list_scope.
 
 Section Codec.
   Context {N : NumOps}.
